@@ -300,6 +300,11 @@ package pubsub
 //@        !(q in p.peers)
 //@   loop 1 step hello-handed-to-the-writer: forall q string :: received(p.newPeerStream) > iter(received(p.newPeerStream)) && q == lastret(Conn.RemotePeer) && !blk[q] && iter(q in p.peers) ==>
 //@        (exists o *peerOutgoingStream :: sent(o.FirstMessage) == iter(sent(o.FirstMessage)) + 1 && lastsent(o.FirstMessage) == lastret(PubSubRouter.OnNewOutboundStream))
+//@   loop 3 invariant listed-peers-are-topic-peers: (peers == nil || fresh(peers)) && (forall i int :: 0 <= i && i < len(peers) ==> peers[i] in p#1.peers && (preq.topic == "" || peers[i] in tmap))
+//@   loop 3 invariant every-topic-peer-listed: forall q string :: $visited[q] && (preq.topic == "" || q in tmap) ==> (exists i int :: 0 <= i && i < len(peers) && peers[i] == q)
+//@   loop 1 step list-peers-answer-is-the-topic-peer-set: forall r *listPeerReq :: received(p#1.getPeers) > iter(received(p#1.getPeers)) && r == lastrecv(p#1.getPeers) ==>
+//@        (forall i int :: 0 <= i && i < len(lastsent(r.resp)) ==> lastsent(r.resp)[i] in p#1.peers && (r.topic == "" || has(p#1.topics, r.topic, lastsent(r.resp)[i]))) &&
+//@        (forall q string :: q in p#1.peers && (r.topic == "" || has(p#1.topics, r.topic, q)) ==> (exists i int :: 0 <= i && i < len(lastsent(r.resp)) && lastsent(r.resp)[i] == q))
 //@   loop 1 step blacklist-only-by-request: received(p.blacklistPeer) == iter(received(p.blacklistPeer)) ==> calls(Blacklist.Add) == iter(calls(Blacklist.Add))
 
 // ---- remote interest bookkeeping (p.topics) ----
